@@ -30,13 +30,15 @@ IGNORES = {
 class Opts(object):
     def __init__(self, terms='tok', max_rules=4, shaping=False, priorities=False, acyclic=False, templates=False,
                  ignore=True, term_prio=False, max_alts=3, max_items=3, depth=2, big_rep=False, anon_re=False,
-                 underscore_terms=None, ignore_kinds=None):
+                 underscore_terms=None, ignore_kinds=None, nonnull=False, unit_bias=False):
         self.terms = terms; self.max_rules = max_rules; self.shaping = shaping; self.priorities = priorities
         self.acyclic = acyclic; self.templates = templates; self.ignore = ignore; self.term_prio = term_prio
         self.max_alts = max_alts; self.max_items = max_items; self.depth = depth; self.big_rep = big_rep
         self.anon_re = anon_re
         self.underscore_terms = shaping if underscore_terms is None else underscore_terms
         self.ignore_kinds = ignore_kinds
+        self.unit_bias = unit_bias  # many alternatives that are a single reference to a higher-ranked rule (unit chains)
+        self.nonnull = nonnull      # no construct that can match the empty string (CYK-compatible)
 
 
 def example_of(term):
@@ -97,6 +99,11 @@ def grammars(draw, o):
         tmpl = draw(st.sampled_from(['tp', '_tp', 'tp']))
     pool = []     # EBNF items generated so far (re-used to provoke shared helper rules)
 
+    def named_term_item():
+        # template arguments are named terminals only: whether an anonymous literal argument is filtered inside the
+        # template depends on the calling rule's '!' in lark and the documentation is silent about it
+        return ['t', tnames[draw(st.integers(0, len(pats) - 1))]]
+
     def term_item():
         if o.shaping and draw(st.integers(0, 3)) == 0:
             # anonymous literal; sometimes the pattern of a named terminal
@@ -128,6 +135,18 @@ def grammars(draw, o):
             return term_item()
         return ['grp', [anchored_seq(allowed, depth - 1, params) for _ in range(draw(st.integers(1, 2)))]]
 
+    def simple_item(allowed, params=()):
+        # body of x~n..m: lark expands it into one alternative per count, so nested repetitions/alternations
+        # multiply; keep bodies small (a size matter, not a property matter)
+        c = draw(st.integers(0, 9))
+        if c < 5 or not allowed:
+            if params and draw(st.booleans()):
+                return ['p', params[draw(st.integers(0, len(params) - 1))]]
+            return term_item()
+        if c < 8:
+            return ['n', allowed[draw(st.integers(0, len(allowed) - 1))]]
+        return ['grp', [[term_item() for _ in range(draw(st.integers(1, 2)))] for _ in range(draw(st.integers(1, 2)))]]
+
     def item(allowed, depth, params=()):
         """allowed: rule names that may be referenced here"""
         if pool and o.shaping and draw(st.integers(0, 7)) == 0:
@@ -146,10 +165,18 @@ def grammars(draw, o):
         if c < 68:
             if tmpl and not params:
                 nparams = 1 if tmpl_params is None else len(tmpl_params)
-                return ['tmpl', tmpl, [term_item() for _ in range(nparams)]]
+                return ['tmpl', tmpl, [named_term_item() for _ in range(nparams)]]
             return term_item()
         if c < 75:
             return ['grp', [seq(allowed, depth - 1, params) for _ in range(draw(st.integers(1, 3)))]]
+        if o.nonnull and c >= 75:
+            if c < 88:
+                it = ['plus', item(allowed, depth - 1, params)]
+            else:
+                lo = draw(st.integers(1, 2)); hi = lo + draw(st.integers(0, 2))
+                it = ['rep', simple_item(allowed, params), lo, hi]
+            if not params: pool.append(it)
+            return it
         if c < 82:
             it = ['maybe', [seq(allowed, depth - 1, params, in_maybe=True) for _ in range(draw(st.integers(1, 2)))]]
         elif c < 87:
@@ -160,14 +187,14 @@ def grammars(draw, o):
             it = ['plus', body_nonnullable(allowed, depth - 1, params) if o.acyclic else item(allowed, depth - 1, params)]
         else:
             lo = draw(st.integers(0, 2)); hi = lo + draw(st.integers(0, 2))
-            it = ['rep', item(allowed, depth - 1, params), lo, hi]
+            it = ['rep', simple_item(allowed, params), lo, hi]
         if it[0] in ('star', 'plus', 'rep') and not params:
             pool.append(it)
         return it
 
     def seq(allowed, depth, params=(), in_maybe=False):
         out = []
-        for _ in range(draw(st.integers(0 if not in_maybe else 1, o.max_items))):
+        for _ in range(draw(st.integers(0 if not (in_maybe or o.nonnull) else 1, o.max_items))):
             it = item(allowed, depth, params)
             if in_maybe and it[0] in ('star', 'plus'):
                 it = it[1]          # directly inside [..] the placeholder count of * and + is unspecified: not generated
@@ -186,7 +213,9 @@ def grammars(draw, o):
         seen = set()
         for k in range(nalts):
             last = (k == nalts - 1)
-            if last:
+            if o.unit_bias and higher and draw(st.integers(0, 1)) == 0:
+                its = [['n', higher[draw(st.integers(0, len(higher) - 1))]]]
+            elif last:
                 # productive by construction: only terminals and higher-ranked rules
                 its = seq(higher, o.depth)
             elif o.acyclic:
@@ -236,7 +265,7 @@ def grammars(draw, o):
         mod = draw(st.sampled_from(['', '', '?', '!'])) if not tmpl.startswith('_') else draw(st.sampled_from(['', '!']))
         rules.append({'name': tmpl, 'mod': mod, 'prio': None, 'params': tmpl_params, 'alts': alts})
         if not _uses_tmpl(rules):
-            rules[0]['alts'].append({'items': [['tmpl', tmpl, [term_item() for _ in tmpl_params]]], 'alias': None})
+            rules[0]['alts'].append({'items': [['tmpl', tmpl, [named_term_item() for _ in tmpl_params]]], 'alias': None})
     return {'rules': rules, 'terms': terms, 'ignore': ignore}
 
 
